@@ -142,7 +142,23 @@ impl Clock for StepClock {
             g.tokens -= 1;
         }
         g.at_now = false;
+        let jitter = g.jitter;
         drop(g);
+        if jitter > 0 {
+            // stress cases: perturb the schedule outside the locked closure as well, so that the
+            // mutex changes hands between spinning threads
+            let t = std::time::SystemTime::now()
+                .duration_since(std::time::UNIX_EPOCH)
+                .map(|d| d.subsec_nanos())
+                .unwrap_or(0);
+            let spins = (t >> 4) % jitter;
+            for _ in 0..spins {
+                std::hint::spin_loop();
+            }
+            if spins % 3 == 0 {
+                std::thread::yield_now();
+            }
+        }
         self.inner.now()
     }
 
